@@ -568,3 +568,72 @@ Proof.
   cbn [tail_node show_items]. rewrite Hv. cbn [show_items empty_list is_nil].
   now rewrite app_nil_r.
 Qed.
+
+(* ---- wider atoms (identifier characters and inner blanks) are good texts ---- *)
+Lemma achar_tchar c : achar c = true -> tchar c = true.
+Proof.
+  unfold achar. intros H. apply orb_true_iff in H as [H|H].
+  - apply wchar_tchar. now apply ident_wchar.
+  - apply N.eqb_eq in H. subst c. reflexivity.
+Qed.
+
+Lemma pa_abs_achars w : Forall (fun c => achar c = true) w -> pa_abs w.
+Proof.
+  induction w as [|c w IH]; intros H rest nq rd sd H1 H2; [reflexivity|].
+  inversion H as [|x l Hc Hw]; subst. cbn [app pa_scan].
+  apply achar_range in Hc.
+  assert (E1 : (c =? c_lbr) = false) by char_neq.
+  assert (E2 : (c =? c_rbr) = false) by char_neq.
+  assert (E3 : (c =? c_lpar) = false) by char_neq.
+  assert (E4 : (c =? c_rpar) = false) by char_neq.
+  assert (E5 : (c =? c_comma) = false) by char_neq.
+  assert (E6 : (c =? c_bslash) = false) by char_neq.
+  assert (E7 : (c =? c_dquote) = false) by char_neq.
+  rewrite E1, E2, E3, E4, E5, E6, E7.
+  destruct ((rd =? 0)%Z && (sd =? 0)%Z); now apply IH.
+Qed.
+
+Lemma b_abs_achar c : achar c = true -> b_abs [c].
+Proof.
+  intros Hc r rd sd H1 H2. cbn [rev app bscan].
+  apply achar_range in Hc.
+  assert (E1 : (c =? c_lbr) = false) by char_neq.
+  assert (E2 : (c =? c_rbr) = false) by char_neq.
+  assert (E3 : (c =? c_lpar) = false) by char_neq.
+  assert (E4 : (c =? c_rpar) = false) by char_neq.
+  assert (E5 : (c =? c_comma) = false) by char_neq.
+  assert (E6 : (c =? c_bar) = false) by char_neq.
+  assert (E7 : (c =? c_dquote) = false) by char_neq.
+  rewrite E1, E2, E3, E4, E5, E6, E7.
+  destruct ((rd =? 0)%Z && (sd =? 0)%Z); reflexivity.
+Qed.
+
+Lemma b_abs_achars w : Forall (fun c => achar c = true) w -> b_abs w.
+Proof.
+  induction w as [|c w IH]; intros H; [intros r rd sd _ _; reflexivity|].
+  inversion H as [|x l Hc Hw]; subst.
+  apply (b_abs_app [c] w); [now apply b_abs_achar|now apply IH].
+Qed.
+
+Lemma count_c_achars c w : achar c = false -> Forall (fun c => achar c = true) w -> count_c c w = 0.
+Proof.
+  intros Hc. induction w as [|x w IH]; intros H; [reflexivity|].
+  inversion H as [|y l Hx Hw]; subst. cbn [count_c]. rewrite (IH Hw).
+  destruct (x =? c) eqn:E; [|reflexivity]. apply N.eqb_eq in E. subst x. congruence.
+Qed.
+
+Lemma good_wide_atom s : wide_atom s = true -> good s.
+Proof.
+  intros Hs. destruct (wide_atom_facts s Hs) as (Hne & Hh & Hall & Hl & _).
+  constructor.
+  - exact Hne.
+  - apply wchar_not_white. now apply ident_wchar.
+  - apply wchar_not_white. now apply ident_wchar.
+  - apply ident_char_range in Hl. unfold c_comma. lia.
+  - apply ident_char_range in Hl. unfold c_minus. lia.
+  - eapply Forall_impl; [|exact Hall]. intros c Hc. now apply achar_tchar.
+  - now apply cs_wide.
+  - now apply pa_abs_achars.
+  - rewrite !count_c_achars by (reflexivity || assumption). reflexivity.
+  - now apply b_abs_achars.
+Qed.
